@@ -17,7 +17,7 @@ STUB_SEND = [("std::sync::mpsc::Sender::send", "crate::harness::stubs::mpsc_send
 SPECS = []
 
 
-def add(prop, name, body, *, stubs=(), keep=None, unwind=None, tier="quick", timeout=600, mem_gb=12, note=""):
+def add(prop, name, body, *, stubs=(), keep=None, unwind=None, tier="quick", timeout=600, mem_gb=12, note="", native=True, cbmc_args=()):
     st = list(STUB_FMT) + list(STUB_SEND)
     for s in stubs:
         st.extend(s)
@@ -34,6 +34,8 @@ def add(prop, name, body, *, stubs=(), keep=None, unwind=None, tier="quick", tim
             timeout=timeout,
             mem_gb=mem_gb,
             note=note,
+            native=native,
+            cbmc_args=list(cbmc_args),
         )
     )
 
@@ -94,8 +96,9 @@ for prop, nm, b0, hi, sz, sem, k in UN:
     form(prop, nm, f"c02::alu1($S, {{mode}}, {b0:#x}, {hi:#x}, {sz}, c02::{sem}, {k})", [nm])
 form("C02", "mulxu_b", "c02::mulxu($S, {mode}, 1)", ["mulxu_b"])
 form("C02", "mulxu_w", "c02::mulxu($S, {mode}, 2)", ["mulxu_w"], timeout=1800)
-form("C02", "divxu_b", "c02::divxu($S, {mode}, 1)", ["divxu_b"])
-form("C02", "divxu_w", "c02::divxu($S, {mode}, 2)", ["divxu_w"], timeout=1800)
+form("C02", "divxu_b", "c02::divxu($S, {mode}, 1, 8)", ["divxu_b"])
+form("C02", "divxu_w_divisor8bit", "c02::divxu($S, {mode}, 2, 8)", ["divxu_w"], timeout=1800, note="bound: divisor < 256")
+form("C02", "divxu_w", "c02::divxu($S, {mode}, 2, 16)", ["divxu_w"], timeout=2400, tier="thorough", note="full width; may exceed the cap (then inconclusive)")
 
 
 # MOV
@@ -212,7 +215,10 @@ for prop, fname, call, keep, kw in FORMS:
 
 add("C09", "c09_read_classification", "c09::read_classification($S)")
 for g in range(6):
-    add("C09", f"c09_write_then_probe_g{g}", f"c09::write_then_probe($S, {g})", unwind=9)
+    if g == 1:
+        add("C09", "c09_write_then_probe_g1_enumerated_probe", "c09::write_then_probe_concrete($S, 1)", unwind=9)
+    else:
+        add("C09", f"c09_write_then_probe_g{g}", f"c09::write_then_probe($S, {g})", unwind=9)
     add("C09", f"c09_word_long_composition_g{g}", f"c09::word_long_composition($S, {g})", unwind=9)
 
 # C07: unimplemented instruction families; handlers the decoder currently routes them to are kept real
@@ -224,20 +230,67 @@ for fam, keep in (("NOP", []), ("SLEEP", []), ("LDC_IMM", []), ("LDC_RS", []), (
                   ("DAA", MOVL_FILE), ("DAS", ["cmp_l_imm", "cmp_l_rn"]), ("EXTS", []), ("MULDIVXS", []), ("EEPMOV", []), ("MOVFPE", MOVB_FILE)):
     add("C07", f"c07_unimpl_{fam.lower()}", f"c07::unimplemented($S, c07::{fam})", stubs=INSTR_STUBS, keep=keep)
 
-add("C10", "c10_boundary_step", "c10::boundary_step($S)", stubs=(STUB_MEM,), unwind=18)
-add("C10", "c10_request_appends", "c10::request_appends($S)", unwind=18)
+for n in range(4):
+    add("C10", f"c10_boundary_step_q{n}", f"c10::boundary_step($S, {n})", stubs=(STUB_MEM,))
+add("C10", "c10_request_appends_5", "c10::request_appends($S, 5)")
 
 STUB_STDOUT = [("crate::cpu::Cpu::send_stdout_message", "crate::harness::c14::ghost_send_stdout")]
-add("C14", "c14_sys_write", "c14::sys_write($S)", stubs=INSTR_STUBS + (STUB_STDOUT,), keep=["trapa"], unwind=18, timeout=1200)
-add("C14", "c14_sys_set_handler", "c14::sys_set_handler($S)", stubs=INSTR_STUBS + (STUB_STDOUT,), keep=["trapa"], unwind=18)
-add("C14", "c14_sys_other", "c14::sys_other($S)", stubs=INSTR_STUBS + (STUB_STDOUT,), keep=["trapa"], unwind=18)
+add("C14", "c14_sys_write", "c14::sys_write($S)", stubs=INSTR_STUBS + (STUB_STDOUT,), keep=["trapa"], unwind=11, timeout=1500)
+add("C14", "c14_sys_set_handler", "c14::sys_set_handler($S)", stubs=INSTR_STUBS + (STUB_STDOUT,), keep=["trapa"], unwind=11, timeout=1500)
+add("C14", "c14_sys_other", "c14::sys_other($S)", stubs=INSTR_STUBS + (STUB_STDOUT,), keep=["trapa"], unwind=11, timeout=1500)
 
 STUB_IOMSG = [("crate::bus::Bus::send_io_port_value", "crate::harness::c16::ghost_send_io_port_value")]
 add("C16", "c16_single_op", "c16::single_op($S)", stubs=(STUB_IOMSG,))
 for p in (1, 6, 11):
     add("C16", f"c16_history3_port{p}", f"c16::history3($S, {p})", stubs=(STUB_IOMSG,), unwind=8, tier="quick" if p != 6 else "thorough")
 
-add("C17", "c17_update_step_64", "c17::update_step($S, 64)", unwind=42, timeout=1500)
-add("C17", "c17_update_step_255", "c17::update_step($S, 255)", unwind=42, timeout=3000, tier="thorough")
+STUB_IRQ = [("crate::cpu::interrupt_controller::InterruptController::request_interrupt", "crate::harness::c17::ghost_request_interrupt")]
+add("C17", "c17_update_step_64", "c17::update_step($S, 64)", stubs=(STUB_IRQ,), unwind=42, timeout=1500)
+add("C17", "c17_update_step_255", "c17::update_step($S, 255)", stubs=(STUB_IRQ,), unwind=42, timeout=3000, tier="thorough")
 add("C17", "c17_tcr_write_keeps_phase", "c17::tcr_write_keeps_phase($S)")
 add("C17", "c17_partition_lemma", "c17::partition_lemma($S)")
+
+# C15: one free harness per instruction source file (handlers of that file real, all others ghosted)
+import gen as _gen
+_by_file = {}
+for _h, _i in _gen.parse_handlers().items():
+    _by_file.setdefault(_i["file"], []).append(_h)
+for _f, _hs in sorted(_by_file.items()):
+    _n = _f[:-3]
+    if _n == "trapa":
+        add("C15", "c15_free_trapa", "c15::free_trapa($S)", stubs=INSTR_STUBS + (STUB_STDOUT,), keep=_hs, unwind=11, timeout=1500)
+        continue
+    add("C15", f"c15_free_{_n}", "c15::free_step($S, util::PC_RAM)", stubs=INSTR_STUBS, keep=_hs)
+add("C15", "c15_free_dispatch_ram", "c15::free_step($S, util::PC_RAM)", stubs=INSTR_STUBS, keep=[])
+add("C15", "c15_free_dispatch_dram_start", "c15::free_step($S, 0x400000)", stubs=INSTR_STUBS, keep=[])
+add("C15", "c15_free_dispatch_vector", "c15::free_step($S, 0x000000)", stubs=INSTR_STUBS, keep=[])
+add("C15", "c15_free_dispatch_dram_end", "c15::free_step($S, 0x5ffffe)", stubs=INSTR_STUBS, keep=[])
+add("C15", "c15_free_fetch", "c15::free_fetch($S)")
+add("C15", "c15_free_interrupt", "c15::free_interrupt($S)", stubs=(STUB_MEM,))
+
+STUB_RUN = [
+    ("crate::cpu::Cpu::fetch", "crate::harness::c13::ghost_fetch"),
+    ("crate::cpu::Cpu::exec", "crate::harness::c13::ghost_exec"),
+    ("crate::cpu::Cpu::try_interrupt", "crate::harness::c13::ghost_try_interrupt"),
+    ("crate::modules::ModuleManager::update_modules", "crate::harness::c13::ghost_update_modules"),
+    ("crate::cpu::Cpu::send_message", "crate::harness::c13::ghost_send_message"),
+    ("std::time::Instant::now", "crate::harness::c13::instant_now"),
+    ("std::time::Instant::elapsed", "crate::harness::c13::instant_elapsed"),
+    ("spin_sleep::SpinSleeper::sleep", "crate::harness::c13::spin_sleep"),
+    ("<spin_sleep::SpinSleeper as std::default::Default>::default", "crate::harness::c13::sleeper_default"),
+    ("crate::cpu::Cpu::print_er", "crate::harness::c13::ghost_print_er"),
+]
+add("C13", "c13_run_loop_85", "c13::run_loop($S, 85)", stubs=(STUB_RUN,), unwind=10, native=False, timeout=1200)
+add("C13", "c13_run_loop_any_charge", "c13::run_loop($S, 255)", stubs=(STUB_RUN,), unwind=10, native=False, timeout=1200)
+
+STUB_SOCK = [
+    ("crate::socket::Socket::pop_messages", "crate::harness::c13::ghost_pop_messages"),
+    ("crate::bus::Bus::write", "crate::harness::c13::ghost_bus_write"),
+    ("crate::bus::Bus::write_port", "crate::harness::c13::ghost_write_port"),
+]
+add("C18", "c18_socket_lines", "c13::socket_lines($S)", stubs=(STUB_RUN, STUB_SOCK), unwind=14, native=False, timeout=3000, mem_gb=20)
+
+STUB_ELF = [("crate::elf::read_elf", "crate::harness::c11::ghost_read_elf")]
+for v in (0, 1):
+    add("C11", f"c11_load_skeleton_v{v}", f"c11::load_skeleton($S, {v}, false)", stubs=(STUB_ELF,), unwind=20, timeout=5400, mem_gb=24, tier="quick" if v == 0 else "thorough")
+    add("C12", f"c12_load_skeleton_v{v}", f"c11::load_skeleton($S, {v}, true)", stubs=(STUB_ELF,), unwind=20, timeout=5400, mem_gb=24)
